@@ -336,6 +336,17 @@ def gen(ctx):
                          f"reassembled by the C03 reassembler) covers {m.group(4)}")
     if not ok:
         ctx.hints.append({"kind": "tables", "diag": "OblEncE2E.v: " + flat[-800:]})
+    # the closing corollary for fast-packet PGNs: the encoder's packets, fed frame by frame to the composed decoder,
+    # return the message at the last frame (needs the fast-packet decoder theorems OblE2Efast)
+    ok3, out3 = G.compile_template("OblE2EfastEnc", deps=DEPS + ("OblEncE2E", "OblE2Efast"))
+    for nm in G.theorem_names("OblE2EfastEnc"):
+        ctx.extra_obligations.append({"name": f"OblE2EfastEnc.v:{nm}", "ok": ok3, "detail": out3[-800:] if not ok3 else ""})
+    m3 = re.search(r"\(66666,\s*(\d+)%nat\)", " ".join(out3.split()))
+    if m3:
+        ctx.notes.append(f"E2E_fast_roundtrip_ebyte / _usb (decode(encode(decode p)) = decode p frame by frame through the "
+                         f"control layer's reassembly) cover {m3.group(1)} fast-packet definitions")
+    if not ok3:
+        ctx.hints.append({"kind": "tables", "diag": "OblE2EfastEnc.v: " + " ".join(out3.split())[-800:]})
 
 
 # ------------------------------------------------------------------ correspondence
